@@ -445,8 +445,10 @@ def snapshot_dir():
 
 # ------------------------------------------------------------------ queue tap
 def install_queue_tap():
-    """Substitute a recording subclass for AsyncPeekableQueue (boundary tap, harness only).
-    Every put gets an id; every pop is recorded with the popping handler and task."""
+    """Boundary tap on AsyncPeekableQueue (harness only): every put gets an id; every pop is
+    recorded with the popping handler and task.  The class is patched IN PLACE with lazily created
+    per-instance state, so that a queue object created before the tap was installed (e.g. one bound
+    as a default argument at import time) is recorded as well."""
     import collections
 
     import geckolib.driver.async_udp_protocol as M
@@ -454,48 +456,59 @@ def install_queue_tap():
     base = M.AsyncPeekableQueue
     if getattr(base, "_verif_tap", False):
         return base
+    orig_put, orig_pop = base.put_nowait, base.pop
 
-    class TapQueue(base):
-        _verif_tap = True
-        registry = []  # all TapQueue instances created (per process)
-        next_id = 0
+    def state(self):
+        d = self.__dict__
+        if "_verif_state" not in d:
+            d["_verif_state"] = True
+            d["ids"] = collections.deque()
+            d["events"] = []  # ("put"/"pop", id, t, data, handler class, task, can_handle?, id(handler))
+            d["head_since"] = {}
+            base.registry.append(self)
+        return d
 
-        def __init__(self):
-            super().__init__()
-            self.ids = collections.deque()
-            self.events = []  # ("put"/"pop", id, t, data, handler class, task, can_handle?)
-            self.head_since = {}
-            TapQueue.registry.append(self)
+    def __getattr__(self, name):
+        if name in ("ids", "events", "head_since"):
+            return state(self)[name]
+        raise AttributeError(name)
 
-        def put_nowait(self, item):
-            TapQueue.next_id += 1
-            i = TapQueue.next_id
-            t = _time.monotonic.now() if hasattr(_time.monotonic, "now") else _time.monotonic()
-            super().put_nowait(item)
-            self.ids.append(i)
-            if len(self.ids) == 1:
-                self.head_since[i] = t
-            self.events.append(("put", i, t, item[0], None, None, None, None))
+    def put_nowait(self, item):
+        st = state(self)
+        base.next_id += 1
+        i = base.next_id
+        t = _time.monotonic.now() if hasattr(_time.monotonic, "now") else _time.monotonic()
+        orig_put(self, item)
+        st["ids"].append(i)
+        if len(st["ids"]) == 1:
+            st["head_since"][i] = t
+        st["events"].append(("put", i, t, item[0], None, None, None, None))
 
-        def pop(self):
-            fr = sys._getframe(1)
-            handler = fr.f_locals.get("self")
-            t = _time.monotonic.now() if hasattr(_time.monotonic, "now") else _time.monotonic()
-            head = self.head
-            i = self.ids[0] if self.ids else None
-            ok = None
-            if head is not None and handler is not None and hasattr(handler, "can_handle"):
-                try:
-                    ok = bool(handler.can_handle(head[0], head[1]))
-                except Exception:
-                    ok = False
-            task = asyncio.current_task()
-            self.events.append(("pop", i, t, head[0] if head else None, type(handler).__name__, task.get_name() if task else None, ok, id(handler)))
-            super().pop()
-            if self.ids:
-                self.ids.popleft()
-            if self.ids:
-                self.head_since[self.ids[0]] = t
+    def pop(self):
+        st = state(self)
+        fr = sys._getframe(1)
+        handler = fr.f_locals.get("self")
+        t = _time.monotonic.now() if hasattr(_time.monotonic, "now") else _time.monotonic()
+        head = self.head
+        i = st["ids"][0] if st["ids"] else None
+        ok = None
+        if head is not None and handler is not None and hasattr(handler, "can_handle"):
+            try:
+                ok = bool(handler.can_handle(head[0], head[1]))
+            except Exception:
+                ok = False
+        task = asyncio.current_task()
+        st["events"].append(("pop", i, t, head[0] if head else None, type(handler).__name__, task.get_name() if task else None, ok, id(handler)))
+        orig_pop(self)
+        if st["ids"]:
+            st["ids"].popleft()
+        if st["ids"]:
+            st["head_since"][st["ids"][0]] = t
 
-    M.AsyncPeekableQueue = TapQueue
-    return TapQueue
+    base._verif_tap = True
+    base.registry = []  # all tapped instances (per process)
+    base.next_id = 0
+    base.__getattr__ = __getattr__
+    base.put_nowait = put_nowait
+    base.pop = pop
+    return base
